@@ -99,6 +99,7 @@ pub fn payload_debug(kind: usize, k: usize, pos: usize, scheme: usize) -> String
 pub fn driver_source(m: &Model, pay: &[usize]) -> String {
     let tok = &m.term_enum;
     let start = &m.nts[m.start].name;
+    let nterms = m.terms.len();
     let mut arms = String::new();
     for (k, t) in m.terms.iter().enumerate() {
         arms.push_str(&format!("        {k} => gen::{tok}::{}({}),\n", t.name, payload_ctor(pay[k])));
@@ -111,6 +112,7 @@ pub struct Pay(pub usize);
 use std::cell::Cell;
 use std::io::{{BufRead, Write}};
 use std::rc::Rc;
+const NTERMS: usize = {nterms};
 
 fn val(p: usize, scheme: usize) -> usize {{
     if scheme == 0 {{ p }} else {{ (p * 7919 + 13) % 100_003 }}
@@ -130,6 +132,10 @@ struct It {{
     scheme: usize,
     some: Rc<Cell<usize>>,
     total: Rc<Cell<usize>>,
+    /// Not fused: after the `None` that ends the input, this many further tokens follow
+    /// (a REPL-like source, `Receiver::try_iter`, `&mut it` with a next record behind the `None`).
+    late: usize,
+    ended: bool,
 }}
 
 impl Iterator for It {{
@@ -137,7 +143,17 @@ impl Iterator for It {{
     fn next(&mut self) -> Option<gen::{tok}> {{
         self.total.set(self.total.get() + 1);
         if self.i >= self.kinds.len() {{
-            return None;
+            if !self.ended || self.late == 0 {{
+                self.ended = true;
+                return None;
+            }}
+            // a token that is not part of the input
+            let p = self.i;
+            let Some(k) = (p * 7 + self.kinds.len()).checked_rem(NTERMS) else {{ return None; }};
+            self.late -= 1;
+            self.i += 1;
+            self.some.set(self.some.get() + 1);
+            return Some(mk(k, p, self.scheme));
         }}
         let k = self.kinds[self.i];
         let p = self.i;
@@ -157,7 +173,8 @@ fn run_line(line: &str) -> String {{
     let (s2, t2) = (some.clone(), total.clone());
     let r = std::panic::catch_unwind(std::panic::AssertUnwindSafe(move || -> Result<gen::{start}, Option<gen::{tok}>> {{
         match flavour {{
-            0 => gen::parse(It {{ kinds, i: 0, scheme, some: s2, total: t2 }}),
+            0 => gen::parse(It {{ kinds, i: 0, scheme, some: s2, total: t2, late: 0, ended: false }}),
+            3 => gen::parse(It {{ kinds, i: 0, scheme, some: s2, total: t2, late: 40, ended: false }}),
             1 => {{
                 let v: Vec<gen::{tok}> = kinds.iter().enumerate().map(|(p, k)| mk(*k, p, scheme)).collect();
                 s2.set(usize::MAX);
